@@ -189,13 +189,16 @@ class Tr:
                 tgs = tg.elts if isinstance(tg, ast.Tuple) else [tg]
                 for t in tgs:
                     if isinstance(t, ast.Subscript) and ast.unparse(t.value) in ('env.bra.A', 'psi.A'):
-                        if not (isinstance(t.slice, ast.Name) and bonds.get(t.slice.id) == '@pC'):
+                        if not ((isinstance(t.slice, ast.Name) and bonds.get(t.slice.id) == '@pC')
+                                or ast.unparse(t.slice) in ('env.bra.pC', 'psi.pC')):
                             fail(self.path, s, 'direct write to a site tensor')
                         eff = eff + ['OWriteC']
                     elif isinstance(t, ast.Subscript) and self.root_of(t) in ROOTS and not ast.unparse(t).startswith(("env._temp", "Schmidt")):
                         fail(self.path, s, 'unsupported assignment target')
                     elif isinstance(t, ast.Attribute) and self.root_of(t) in ROOTS:
-                        fail(self.path, s, 'assignment to an attribute of psi/env')
+                        # the scalar prefactor of the state is no tensor and enters no environment
+                        if not (ast.unparse(t) in ('psi.factor', 'env.bra.factor') and isinstance(s.value, ast.Constant)):
+                            fail(self.path, s, 'assignment to an attribute of psi/env')
                 out += eff
                 continue
             if isinstance(s, ast.If):
